@@ -28,7 +28,7 @@ ABSENT == "ABSENT"
 
 T(ty, id, raw, fits, canon) == [ty |-> ty, id |-> id, raw |-> raw, fits |-> fits, canon |-> canon]
 Tokens == {
-  T("string", "abc", <<"abc">>, TRUE, "\"abc\""), T("string", "space", <<"a b">>, TRUE, "\"a b\""),
+  T("string", "abc", <<"abc">>, TRUE, "\"abc\""), T("string", "empty", <<"">>, TRUE, "\"\""), T("string", "space", <<"a b">>, TRUE, "\"a b\""),
   T("string", "amp", <<"x&y=z">>, TRUE, "\"x&y=z\""), T("string", "plus", <<"a+b">>, TRUE, "\"a+b\""), T("string", "uni", <<"<U1>">>, TRUE, "\"<U1>\""),
   T("int", "seven", <<"7">>, TRUE, "7"), T("int", "zero", <<"0">>, TRUE, "0"), T("int", "neg", <<"-1">>, TRUE, "-1"),
   T("int", "max32", <<"2147483647">>, TRUE, "2147483647"), T("int", "over32", <<"2147483648">>, TRUE, "2147483648"),
